@@ -1,6 +1,8 @@
 \* C17 document layer, closed (quick): the full header x every history of <= 3 add_* calls over the four
 \* context paragraphs and at most one focus paragraph (3 patterns, copyright texts of <= 2 lines x
-\* license texts of <= 2 lines over E I ID P)
+\* license texts of <= 2 lines over E I ID P); one call the API REFUSES after 0, 1 or 2 add_* calls (RejAt; every
+\* kind: BadCallsOn / BadCallsDoc) followed by add_* calls up to 2 paragraphs (RejThen); refused calls among the
+\* edits of the re-parsed documents of <= 2 paragraphs (RejEditAt)
 CONSTANTS
   Mode = "doc"
   Alphabet = {}
@@ -19,6 +21,11 @@ CONSTANTS
   StaleDump = FALSE
   LicMemoBySynopsis = FALSE
   ParseMemoAliased = FALSE
+  CommaSeparates = FALSE
+  RejectDrops = FALSE
+  RejAt = {0, 1, 2}
+  RejThen = 2
+  RejEditAt = {0, 1, 2}
 SPECIFICATION Spec
 INVARIANT DocProps
 INVARIANT HistoryKept
